@@ -28,6 +28,10 @@ type Machine struct {
 	Globals   map[*ssa.Global]int
 	MaxSteps  int
 	LoopBound int
+	// LoopBounds overrides LoopBound per loop: key "<FuncName>#<ordinal>"
+	// (loops numbered in source order from 1); the value is the number of
+	// iterations allowed.
+	LoopBounds map[string]int
 	NoMerge   bool // disable if-conversion (debugging)
 	// NoOrderPrune disables the order-literal contradiction test in Decide.
 	NoOrderPrune bool
@@ -624,6 +628,14 @@ func (p *Path) run(fr *Frame) Val {
 				if p.M.LoopHook(p, fr, b, prev == nil || !p.M.isBackEdge(prev, b)) {
 					p.Stop("loop-cut")
 				}
+			}
+		}
+		if p.M.LoopBounds != nil && p.M.isLoopHead(b) {
+			if lb, ok := p.M.LoopBounds[fmt.Sprintf("%s#%d", FuncName(fr.Fn), p.M.LoopOrdinal(b))]; ok && fr.Visits[b] > lb+1 {
+				if len(b.Instrs) > 0 {
+					p.Assert(FuncName(fr.Fn)+fmt.Sprintf("/loop%d/terminates-within-bound", p.M.LoopOrdinal(b)), "unwind", smt.False, p.posOf(b.Instrs[0]), fmt.Sprintf("more than %d iterations", lb))
+				}
+				p.Stop("unwind")
 			}
 		}
 		if p.M.LoopBound > 0 && fr.Visits[b] > p.M.LoopBound+1 && p.M.isLoopHead(b) {
